@@ -19,8 +19,6 @@ import re
 
 
 PID = "C15"
-KINDS = {"streams": "KStreams", "matrix": "KMatrix", "tail": "KTail"}
-ERRS = {0: "ENone", 1: "EEOF", 2: "EFail"}
 
 
 def unhex(s):
@@ -35,7 +33,7 @@ def esc(b):
 
 
 def case_to_line(c):
-    """id | kind | #labelsets { #pairs { k | v } } | #batches { #entries { fp | labelset | ts | err | msg | tsf | val } } | out
+    """id | kind | #labelsets { #pairs { k | v } } | #batches { #entries { fp | labelset | ts | err | msg | tsf | val } } | #items { item } | out
     (decoded by decode_case in model/JsonStream.v)"""
     lsets, idx = [], {}
     matrix = c["kind"] == "matrix"      # the float texts are used by the matrix writer only
@@ -57,6 +55,9 @@ def case_to_line(c):
         for e in b:
             f += [e["fp"], str(idx[json.dumps(e.get("lbls") or [])]), str(e["ts"]), str(e.get("err", 0)),
                   esc(unhex(e["msg"])), esc(e.get("tsf", "") if matrix else ""), esc(e.get("valt", "") if matrix else "")]
+    items = c.get("items") or []
+    f.append(str(len(items)))
+    f += [esc(unhex(it)) for it in items]
     f.append(esc(unhex(c["out"])))
     return '"' + "|".join(f) + '"'
 
@@ -87,18 +88,19 @@ def eval_cases(ck, name, cases):
 
 
 def case_size(c):
-    return (sum(len(b) for b in c["batches"] or []), len(c["out"]))
+    return (sum(len(b) for b in c["batches"] or []) + len(c.get("items") or []), len(c["out"]))
 
 
 def strip_case(c):
     """the replayable part of a case (inputs only)"""
-    return {"id": c["id"], "kind": c["kind"], "class": c.get("class", ""),
+    return {"id": c["id"], "kind": c["kind"], "class": c.get("class", ""), "items": c.get("items") or [],
             "batches": [[{k: e.get(k) for k in ("fp", "lbls", "ts", "msg", "v", "err")} for e in b] for b in c["batches"] or []]}
 
 
 def describe(c):
     return {"kind": c["kind"], "class": c.get("class"), "rows": [[{"fp": e["fp"], "labels": {unhex(k).decode("latin1"): unhex(v).decode("latin1") for k, v in e.get("lbls") or []},
                                                                     "ts": e["ts"], "msg": unhex(e["msg"]).decode("latin1"), "err": e.get("err", 0)} for e in b] for b in c["batches"] or []],
+            "items": [unhex(it).decode("latin1") for it in c.get("items") or []],
             "body": unhex(c["out"]).decode("latin1")}
 
 
@@ -172,6 +174,15 @@ def run_encoders(ck):
     ck.obligation("float texts parse back to the value (hypothesis of the number rendering)", not numloss,
                   "case ids: %s %s" % (numloss[:10], [byid[i]["numloss"] for i in numloss[:3]]))
 
+    # recorded finding: /series splices the stored label text; a stored text that is not JSON (the writer's
+    # strconv.Quote form of a control byte, C04) makes the body invalid. Outside this property's encoders.
+    known = ck.known_findings()
+    spliced = [c for c in ok_cases if c["kind"] == "series" and c["id"] in unread_s and c["gorows"].startswith("skip:stored")]
+    if spliced and "series-splices-stored-labels" in known:
+        w = min(spliced, key=case_size)
+        ck.report_known("series-splices-stored-labels", "stored labels %r -> body %r" % (
+            [unhex(it).decode("latin1") for it in w["items"]][:3], unhex(w["out"]).decode("latin1")[:120]))
+
     bad = viol or godiff
     if bad:
         worst = min((byid[i] for i in bad), key=case_size)
@@ -196,14 +207,16 @@ def run_encoders(ck):
         rows = [e for b in c["batches"] or [] for e in b if e.get("err", 0) == 0]
         fps = [e["fp"] for e in rows]
         nser = sum(1 for i, f in enumerate(fps) if i == 0 or fps[i - 1] != f)
-        if nser >= 2 and len(rows) >= 3 and len(c["batches"]) >= 2:
+        if (nser >= 2 and len(rows) >= 3 and len(c["batches"] or []) >= 2) or len(c.get("items") or []) >= 2:
             distinct.add(c["kind"] + c["out"])
     ck.coverage["evaluations"] += len(cases)
     ck.coverage["distinct_nontrivial"] += len(distinct)
     ck.coverage["rule"] += ("encoders: random result sets (0..5 series runs, fingerprints incl. 0 / 2^64-1 / repeated in separate runs, 1..4 rows per run, "
                             "labels and lines over all byte classes incl. quotes, backslashes, controls, invalid UTF-8, int64 extremes, "
                             "special floats), split into batches at random points with empty batches and io.EOF markers; "
-                            "non-trivial = >=2 series, >=3 rows, >=2 batches; distinct by kind+body. ")
+                            "list endpoints (tempo tags / tag values, labels, series): 0..7 byte strings of the same classes, stored label documents "
+                            "valid / strconv.Quote-style / truncated; "
+                            "non-trivial = >=2 series, >=3 rows, >=2 batches (row encoders) or >=2 items (list endpoints); distinct by kind+body. ")
     ck.extra["input_classes"] = hist
     ck.extra["input_distribution"] = {"kinds": kinds, "classes": hist}
     ck.extra["go_rows_checked"] = sum(1 for c in ok_cases if c["gorows"] == "ok")
